@@ -864,6 +864,14 @@ pub fn oracle_c04(before: &Obs, after: &Obs) -> Vec<String> {
         if a.in_ring != b.in_ring {
             f.push("rejected block changed the block ring entries of other stored blocks".to_string());
         }
+        if (a.last_block_id, a.last_block_hash, a.last_ts_burnfee, a.genesis_block_id)
+            != (b.last_block_id, b.last_block_hash, b.last_ts_burnfee, b.genesis_block_id)
+        {
+            f.push(format!(
+                "rejected block changed the tip bookkeeping (last_block_id / hash / timestamp / burnfee / genesis_block_id): last_block_id {} -> {}, last (timestamp, burnfee) {:?} -> {:?}, genesis_block_id {} -> {}",
+                a.last_block_id, b.last_block_id, a.last_ts_burnfee, b.last_ts_burnfee, a.genesis_block_id, b.genesis_block_id
+            ));
+        }
         if before.wallet != after.wallet {
             f.push(format!(
                 "rejected block changed the wallet: {:?} -> {:?}",
@@ -887,6 +895,7 @@ pub fn empty_obs() -> Obs {
             last_block_id: 0,
             last_block_hash: [0; 32],
             genesis_block_id: 0,
+            last_ts_burnfee: (0, 0),
         }),
         wallet: (0, 0),
         panic_msg: None,
